@@ -818,6 +818,10 @@ def to_z3(t):
         r = z3.IntToStr(A[0])
     elif op == "str.to_int":
         r = z3.StrToInt(A[0])
+    elif op == "str.from_code":
+        r = z3.StrFromCode(A[0])
+    elif op == "str.to_code":
+        r = z3.StrToCode(A[0])
     elif op == "str.replace_all":
         # not in z3py's public API under this name in all versions; build via parse
         r = _z3_app("str.replace_all", t, A)
